@@ -153,8 +153,13 @@ def load_known():
     return json.load(open(KNOWN))
 
 
+# evidence level per property = MANIFEST level_claimed.category
+LEVELS = {"C03": "exploration", "C04": "fault_enumeration", "C10": "fault_enumeration"}
+
+
 def write_evidence(prop, tier, seed, level, coverage, wall, violations, assumptions):
     os.makedirs(EVID, exist_ok=True)
+    level = LEVELS.get(prop, level)
     ev = {"property_id": prop, "tier": tier, "seed": int(seed), "level": level,
           "coverage": coverage, "assumptions": assumptions, "wall_s": round(wall, 2),
           "violations": int(violations)}
